@@ -9,7 +9,7 @@ from .core import (BreakSig, ContinueSig, PathEnd, RaiseSig, ReturnSig, Unsuppor
                    list_get, pack, ty_of, unpack, zint)
 from .interp import (_UNBOUND, Closure, Env, Interp, Iter, PyDict, PyList, assigned_names, exc_isa)
 from .contract import split_label
-from .types import BOOL, INT, FuncRef, Obj, Opaque, SDict, SList, SSet, SV, ClassRef
+from .types import sort_of, BOOL, INT, FuncRef, Obj, Opaque, SDict, SList, SSet, SV, ClassRef
 
 
 def exec_block(I: Interp, stmts, env: Env):
@@ -290,6 +290,10 @@ def s_For(I, st, env):
         lst = fresh_value(I.ctx, _ListT(it.ety), "set_elements")
         j_ = z3.Int(I.ctx.fresh_name("sj"))
         I.ctx.assume(z3.ForAll([j_], z3.Implies(z3.And(0 <= j_, j_ < lst.nz()), z3.Select(it.pred, z3.Select(lst.arr, j_)))))
+        # ... and every element of the set is visited: a Skolem position for each member
+        x_ = z3.Const(I.ctx.fresh_name("sx"), sort_of(it.ety))
+        pos_ = z3.Function(I.ctx.fresh_name("set_pos"), sort_of(it.ety), z3.IntSort())
+        I.ctx.assume(z3.ForAll([x_], z3.Implies(z3.Select(it.pred, x_), z3.And(0 <= pos_(x_), pos_(x_) < lst.nz(), z3.Select(lst.arr, pos_(x_)) == x_))))
         it = lst
     if isinstance(it, Obj) and it.cls == "generator":
         it = it.fields["trace"]
